@@ -6,6 +6,38 @@ TECH = "bounded symbolic execution of go/ssa (gosym) + SMT (QF_BV, z3; obligatio
 
 # id -> dict(text, note)  for claimed checks
 CLAIMED = {
+ "C03": dict(
+  text="Per node type (all 53 non-Package types, generated from /repo/dst.go at check time): a generic undecorated instance (every bool flag and token kind symbolic, optional children present / all nil, lists of length 0-2) is restored by the real restoreNode to a positioned ast from an arbitrary restorer state, converted back by the real decorateNode, and the result must be deeply equal to the input for all flag values (solver obligation over every scalar), and restore again to an equal ast. This is the field/token-existence part of 'tokens survive'; the comment-conservation part under arbitrary formatting needs link() over fragment lists and is not claimed yet.",
+  note="Decided at the ast interface under the parser/printer contracts P and PC of DESIGN.md section 3 (go/parser, go/printer, scanner normalisation such as CRLF/BOM are outside). Bounds: depth 1 children, lists <= 2.",
+  design="5/C03"),
+ "C04": dict(
+  text="Per node type and per decoration point (forked): a generic instance with <= 2 decorations of forked kind (newline, line comment, one-line block comment; comment bodies opaque strings of any length < 65536) on that point is restored by the real restoreNode from an arbitrary restorer state (symbolic base, cursor, last line, freshness). Solver obligations: every comment decoration is rendered exactly once, in listing order, with its own text; it lies in the gap that the real fragmenter (addNodeFragments run on the restored ast) assigns to that (node, point) - after the preceding token/child, before the following one; Start before the node's first token, End after its last.",
+  note="Reference for 'documented place' is the generated fragmenter, which the repo's TestPositions ties to the documented examples. Points that exist only conditionally (e.g. ChanType.Arrow without arrow) get the range check only. dstutil.Decorations / Decorations() accessors: not yet covered. Printer behaviour is contract PC.",
+  design="5/C04"),
+ "C05": dict(
+  text="The exact code every generated restoreNode case runs between two siblings (applyDecorations(A.End), applySpace(A.After), applySpace(B.Before), applyDecorations(B.Start)) is executed symbolically from an arbitrary restorer state with symbolic spaces in {None,NewLine,EmptyLine} and forked End/Start decorations; the line breaks between consecutive positioned items are read from the real line table and must equal, capped at one blank line, the documented rule max(After,Before) with line comments / newline decorations contributing exactly their own break. For all cursor/base/length values (LIA/BV obligations).",
+  note="Bounds: <= 1 (quick) / 2 (thorough) decorations per side. Printer (blank-line capping, where breaks are legal) is contract PC; expression-level NewLine splitting is printer behaviour and not decided here.",
+  design="5/C05"),
+ "C06": dict(
+  text="Per node type: Clone of a generic instance (one distinct comment on every decoration point of the node and its children, symbolic spaces/flags, lists with spare capacity) shares no allocation, backing array or map with the original (engine heap), and restoring original and clone from the same arbitrary restorer state yields deeply equal asts, line tables, comments and cursor, so every field printing consults was copied; scribbling over the whole clone leaves the original's rendering unchanged; a node placed at two positions (6 shapes incl. deep/cross-parent) makes restore panic while the Clone variant restores both.",
+  note="Bounds: children one level deep, lists <= 2. Object/Scope links are nil in generic instances (dropping them is visible only with Extras).",
+  design="5/C06"),
+ "C11": dict(
+  text="Per node type: after the real restoreNode (Restorer.Map) and after the real decorateNode of the restored ast (Decorator.Map), every ast node reached by ast.Inspect has a dst counterpart of the corresponding type, every dst node maps back, the maps are mutually inverse, commute with parent/child structure, contain no nil keys and the trees have equal node counts.",
+  note="Bounds: generic instances with children one level deep, lists <= 2, without import resolution (the selector-collapse case of resolved identifiers is not yet covered).",
+  design="5/C11"),
+ "C12": dict(
+  text="Inductive invariant I of the restorer state (base<=cursor, fresh-line mark behind cursor, line table strictly increasing and behind the cursor, comments ordered and inside) is shown preserved from an arbitrary state satisfying I by applySpace, applyDecorations (all four decoration kinds incl. content-bounded multi-line block comments, File/Start special case, initial state) and literals (raw strings with newlines), and by restoreNode of a generic instance of every node type (symbolic spaces, flags, token kinds); the real fragmenter run on each restored ast must find token extents ordered, non-overlapping and inside the cursor range (exact agreement of token lengths). RestoreFile through the real go/token FileSet (symbolic base via a prior file): no panic, SetLines accepts the table, positions inside the file, two files in one FileSet disjoint.",
+  note="'Order equals that of a fresh parse of the printed text' is replaced by ordering/non-overlap in the fragmenter's token order plus contract PC. Bounds: <= 2 (3 thorough) decorations per step, children depth 1.",
+  design="5/C12"),
+ "C13": dict(
+  text="Per node type: for a generic dst instance with each documented-optional child nil in turn, all nil, or none nil (optional-ness read from dst.go's field comments at check time), the visit log of the real dst.Walk equals, through the restorer's node map, the visit log of go/ast's Walk on the restored ast: same nodes, same order, same nil calls, each node once; pruning at every visit index removes the same subtree in both; Inspect follows the same sequence.",
+  note="Bounds: depth 2 trees, lists of 2. Mostly shape reasoning: the solver's share is path feasibility; equality of logs is decided on the engine's concrete heap.",
+  design="5/C13"),
+ "C15": dict(
+  text="At the ast interface under parser contract P: the real DecorateFile+RestoreFile are executed on the shapes go/parser returns for broken input - the empty file with Package==NoPos (file sizes 0..3, arbitrary line table, symbolic FileSet base), a file whose only declaration is a BadDecl of symbolic extent - and restore/fragment/link/decorate are executed on generic instances of every node type with all token-existence flags symbolic (closers without position) and optional children missing; no path may reach a panic.",
+  note="The claim is about P's clauses, not about all byte strings: go/parser and go/scanner are not executed symbolically. Shapes are hand-built from reading go/parser (go1.23).",
+  design="5/C15"),
  "C19": dict(
   text="All paths of Append/Prepend/Replace/Clear/All are executed symbolically from go/ssa for every list state (len<=3, spare cap<=2, nil/empty), every argument shape (fresh array with spare capacity, view of the list's own elements, nil) and, in sequences of 2 (quick) / 4 (thorough) operations, against a reference []string; element bytes are solver-ranged, aliasing is decided on the engine's concrete heap; append growth capacity is forked {needed, needed+1}. Bounded model checking, not a proof.",
   note="Bounds: len<=3, spare<=2, argument len<=3, <=4 operations. Trusted: gosym's SSA semantics (validated by native replay of witness paths), z3.",
